@@ -69,9 +69,9 @@ theorem C10_noNewDangling_step (s : Scn) (op : Op) (hw : Wf s.net) (hc : op.clea
     exact Scn.removeLanelets_inv (fun m => Wf m ∧ NoNewDangling s.net m) kl ks kt s args r h0
   | scnRemoveSigns xs => exact Scn.removeSigns_inv (fun m => Wf m ∧ NoNewDangling s.net m) ks s xs h0
   | scnRemoveLights xs => exact Scn.removeLights_inv (fun m => Wf m ∧ NoNewDangling s.net m) kt s xs h0
-  | scnRemoveInter x incs =>
-    show Wf (Scn.idsRemoveAll _ _).1.net ∧ NoNewDangling s.net (Scn.idsRemoveAll _ _).1.net
-    rw [Scn.idsRemoveAll_net]
+  | scnRemoveInter x =>
+    show Wf (s.removeInter x).1.net ∧ NoNewDangling s.net (s.removeInter x).1.net
+    rw [Scn.removeInter_net]
     exact ⟨wf_removeInter hw x, nnd_removeInter _ x⟩
   | cutOut keep c =>
     have hc' : c = true := hc
@@ -171,9 +171,9 @@ theorem C10_uniq_step (s : Scn) (op : Op) (hu : Uniq s.net) : Uniq (s.step op).1
   | scnRemoveLanelets args r => exact Scn.removeLanelets_inv Uniq kl ks kt s args r hu
   | scnRemoveSigns xs => exact Scn.removeSigns_inv Uniq ks s xs hu
   | scnRemoveLights xs => exact Scn.removeLights_inv Uniq kt s xs hu
-  | scnRemoveInter x incs =>
-    show Uniq (Scn.idsRemoveAll _ _).1.net
-    rw [Scn.idsRemoveAll_net]
+  | scnRemoveInter x =>
+    show Uniq (s.removeInter x).1.net
+    rw [Scn.removeInter_net]
     exact uniq_of_sublist (allIds_removeInter _ x) hu
   | cutOut keep c =>
     show Uniq (match s.net.cutOut (fun a => keep.contains a) c with
@@ -244,9 +244,9 @@ theorem C10_frame_step (s : Scn) (op : Op) (hc : op.cleans) : Frame s.net (s.ste
   | scnRemoveLanelets args r => exact Scn.removeLanelets_inv (Frame s.net) kl ks kt s args r Frame.refl
   | scnRemoveSigns xs => exact Scn.removeSigns_inv (Frame s.net) ks s xs Frame.refl
   | scnRemoveLights xs => exact Scn.removeLights_inv (Frame s.net) kt s xs Frame.refl
-  | scnRemoveInter x incs =>
-    show Frame s.net (Scn.idsRemoveAll _ _).1.net
-    rw [Scn.idsRemoveAll_net]
+  | scnRemoveInter x =>
+    show Frame s.net (s.removeInter x).1.net
+    rw [Scn.removeInter_net]
     exact frame_removeInter _ x
   | cutOut keep c =>
     have hc' : c = true := hc
@@ -388,13 +388,13 @@ theorem C10_done_scnRemoveLanelets (s : Scn) (args : List RmArg) (hok : (s.remov
     (∀ t ∈ s.net.hangingLights args, t ∉ (s.removeLanelets args true).1.net.tids) := by
   obtain ⟨s1, s2, e1, e2, e3⟩ := Scn.removeLanelets_done s args hok
   rw [e3] at hok ⊢
-  have d3 := Scn.loop_done Net.removeLanelet Scn.removeLaneletLoop (fun _ => rfl) (fun _ _ _ => rfl)
+  have d3 := Scn.loop_done loopShape_lanelets
     (fun i m => i ∉ m.lids) (fun m i => by rw [removeLanelet_lids]; simp)
     (fun m i j h => by rw [removeLanelet_lids]; exact fun c => h (List.mem_filter.1 c).1) s2 _ hok
-  have d1 := Scn.loop_done Net.removeSign Scn.removeSigns (fun _ => rfl) (fun _ _ _ => rfl)
+  have d1 := Scn.loop_done loopShape_signs
     (fun i m => i ∉ m.sids) (fun m i => by rw [removeSign_sids]; simp)
     (fun m i j h => by rw [removeSign_sids]; exact fun c => h (List.mem_filter.1 c).1) s _ (by rw [e1])
-  have d2 := Scn.loop_done Net.removeLight Scn.removeLights (fun _ => rfl) (fun _ _ _ => rfl)
+  have d2 := Scn.loop_done loopShape_lights
     (fun i m => i ∉ m.tids) (fun m i => by rw [removeLight_tids]; simp)
     (fun m i j h => by rw [removeLight_tids]; exact fun c => h (List.mem_filter.1 c).1) s1 _ (by rw [e2])
   rw [e1] at d1
@@ -409,8 +409,9 @@ theorem C10_done_scnRemoveLanelets (s : Scn) (args : List RmArg) (hok : (s.remov
   · exact Scn.removeLaneletLoop_inv (fun m => t ∉ m.tids) (fun m i h => by rw [removeLanelet_tids]; exact h) s2 _
       (d2 t ht)
 
-/-- **hanging, "iff"**: on a normal return of `Scenario.remove_lanelet(args, referenced_elements=True)` a sign of the
-network is removed exactly when a lanelet handed in references it and no remaining lanelet does. -/
+/-- **hanging, "iff"**: on a normal return (`hok`; discharged from id-pool consistency by `C10_removeLanelets_ok`, see
+`C10_hanging_iff_idpool`) of `Scenario.remove_lanelet(args, referenced_elements=True)` a sign of the network is removed
+exactly when a lanelet handed in references it and no remaining lanelet does. -/
 theorem C10_hanging_iff (s : Scn) (args : List RmArg) (hok : (s.removeLanelets args true).2 = none) (e : Elem)
     (he : e ∈ s.net.signs) :
     e.1 ∉ (s.removeLanelets args true).1.net.sids ↔
@@ -443,7 +444,7 @@ theorem C10_hanging_iff_light (s : Scn) (args : List RmArg) (hok : (s.removeLane
 theorem C10_present_scnRemoveSigns (s : Scn) (xs : List Id) :
     (s.removeSigns xs).1.net.lids = s.net.lids ∧ (∀ e ∈ s.net.signs, e.1 ∉ xs → e ∈ (s.removeSigns xs).1.net.signs) ∧
     (s.removeSigns xs).1.net.lights = s.net.lights ∧ (s.removeSigns xs).1.net.inters = s.net.inters := by
-  refine Scn.loop_inv' Net.removeSign Scn.removeSigns (fun _ => rfl) (fun _ _ _ => rfl)
+  refine Scn.loop_inv' loopShape_signs
     (fun m => m.lids = s.net.lids ∧ (∀ e ∈ s.net.signs, e.1 ∉ xs → e ∈ m.signs) ∧ m.lights = s.net.lights ∧
       m.inters = s.net.inters) s xs ?_ ⟨rfl, fun _ h _ => h, rfl, rfl⟩
   rintro m i hi ⟨q1, q2, q3, q4⟩
@@ -459,7 +460,7 @@ theorem C10_present_scnRemoveLights (s : Scn) (xs : List Id) :
     (s.removeLights xs).1.net.lids = s.net.lids ∧ (s.removeLights xs).1.net.signs = s.net.signs ∧
     (∀ e ∈ s.net.lights, e.1 ∉ xs → e ∈ (s.removeLights xs).1.net.lights) ∧
     (s.removeLights xs).1.net.inters = s.net.inters := by
-  refine Scn.loop_inv' Net.removeLight Scn.removeLights (fun _ => rfl) (fun _ _ _ => rfl)
+  refine Scn.loop_inv' loopShape_lights
     (fun m => m.lids = s.net.lids ∧ m.signs = s.net.signs ∧ (∀ e ∈ s.net.lights, e.1 ∉ xs → e ∈ m.lights) ∧
       m.inters = s.net.inters) s xs ?_ ⟨rfl, rfl, fun _ h _ => h, rfl⟩
   rintro m i hi ⟨q1, q2, q3, q4⟩
@@ -470,9 +471,8 @@ theorem C10_present_scnRemoveLights (s : Scn) (xs : List Id) :
   intro heq
   exact hne (heq ▸ hi)
 
-theorem C10_present_scnRemoveInter (s : Scn) (x : Id) (incs : List Id) :
-    (s.removeInter x incs).1.net = s.net.removeInter x := by
-  unfold Scn.removeInter; rw [Scn.idsRemoveAll_net]
+theorem C10_present_scnRemoveInter (s : Scn) (x : Id) :
+    (s.removeInter x).1.net = s.net.removeInter x := Scn.removeInter_net s x
 
 /-- `create_from_lanelet_network` (any `cleanup_ids`, arbitrary filter result `keep`): the lanelets of the new network
 are exactly those that pass the filter; a sign / light is taken over exactly when a kept lanelet references it; an
@@ -526,9 +526,12 @@ theorem C10_present_fromList (n : Net) (sel : List Id) (c : Bool) :
 
 /-! ## The scenario-level precondition under which `Scenario.remove_lanelet` returns normally -/
 
-/-- Id-pool consistency of a scenario (the invariant of property C09, restricted to the lanelet network): the ids of
-all lanelets, signs, lights, intersections and incoming elements are pairwise different and all recorded in
-`Scenario._id_set`. -/
+/-- Id-pool consistency of a scenario (the invariant of property C09 — `C09_inv_run` proves it for every history of
+`Scenario` operations over C09's own model — restricted to the lanelet network): the ids of all lanelets, signs, lights,
+intersections and incoming elements are pairwise different and all recorded in `Scenario._id_set`.  It is the
+scenario-level precondition under which `Scenario.remove_lanelet` returns normally (`C10_removeLanelets_ok`); its
+preservation along histories is cited from C09, not re-proved here (`C10_idpool_fresh` covers the fresh scenario the
+history builds after each cut-out). -/
 def IdPool (s : Scn) : Prop := Uniq s.net ∧ ∀ x ∈ s.net.allIds, x ∈ s.ids
 
 /-- **`hok` discharged**: on a scenario with a consistent id pool, `Scenario.remove_lanelet(args, True)` does not raise
@@ -544,27 +547,38 @@ theorem C10_removeLanelets_ok (s : Scn) (args : List RmArg) (hp : IdPool s) (hnd
   have hsT : ∀ x ∈ s.net.hangingLights args, x ∈ s.net.tids := fun x hx => (mem_hangingLights.1 hx).1
   have ndS : (s.net.hangingSigns args).Nodup := List.Nodup.sublist List.filter_sublist us
   have ndT : (s.net.hangingLights args).Nodup := List.Nodup.sublist List.filter_sublist ut
-  have o1 := Scn.loop_ok Net.removeSign Scn.removeSigns (fun _ => rfl) (fun _ _ _ => rfl) s _ ndS
-    (fun x hx => inS x (hsS x hx))
+  have kS : ∀ m i j, j ≠ i → j ∈ Net.sids m → j ∈ Net.sids (Net.removeSign m i) := fun m i j hne hj => by
+    rw [removeSign_sids, List.mem_filter]; exact ⟨hj, by simpa using hne⟩
+  have kT : ∀ m i j, j ≠ i → j ∈ Net.tids m → j ∈ Net.tids (Net.removeLight m i) := fun m i j hne hj => by
+    rw [removeLight_tids, List.mem_filter]; exact ⟨hj, by simpa using hne⟩
+  have kL : ∀ m i j, j ≠ i → j ∈ Net.lids m → j ∈ Net.lids (Net.removeLanelet m i) := fun m i j hne hj => by
+    rw [removeLanelet_lids, List.mem_filter]; exact ⟨hj, by simpa using hne⟩
+  have o1 := Scn.loop_ok loopShape_signs kS s _ ndS hsS (fun x hx => inS x (hsS x hx))
+  have t1 := Scn.removeSigns_inv (fun m => m.tids = s.net.tids ∧ m.lids = s.net.lids)
+    (fun m i h => ⟨(removeSign_tids m i).trans h.1, (removeSign_lids m i).trans h.2⟩) s (s.net.hangingSigns args) ⟨rfl, rfl⟩
   unfold Scn.removeLanelets Scn.removeHanging
   simp only [if_true]
   cases hr : s.removeSigns (s.net.hangingSigns args) with
   | mk s1 e1 =>
-    rw [hr] at o1
+    rw [hr] at o1 t1
     obtain ⟨o1e, o1i⟩ := o1
     simp only at o1e o1i
     subst o1e
     dsimp only
-    have o2 := Scn.loop_ok Net.removeLight Scn.removeLights (fun _ => rfl) (fun _ _ _ => rfl) s1 _ ndT
+    have o2 := Scn.loop_ok loopShape_lights kT s1 _ ndT (fun x hx => by rw [t1.1]; exact hsT x hx)
       (fun x hx => (o1i x).2 ⟨inT x (hsT x hx), fun hc => dst x (hsS x hc) (hsT x hx)⟩)
+    have t2 := Scn.removeLights_inv (fun m => m.lids = s.net.lids)
+      (fun m i h => (removeLight_lids m i).trans h) s1 (s.net.hangingLights args) t1.2
     cases hr2 : s1.removeLights (s.net.hangingLights args) with
     | mk s2 e2 =>
-      rw [hr2] at o2
+      rw [hr2] at o2 t2
       obtain ⟨o2e, o2i⟩ := o2
       simp only at o2e o2i
       subst o2e
       dsimp only
-      refine (Scn.loop_ok Net.removeLanelet Scn.removeLaneletLoop (fun _ => rfl) (fun _ _ _ => rfl) s2 _ hnd ?_).1
+      refine (Scn.loop_ok loopShape_lanelets kL s2 _ hnd (fun x hx => ?_) ?_).1
+      · obtain ⟨a, ha, rfl⟩ := List.mem_map.1 hx
+        rw [t2]; exact hin a ha
       intro x hx
       obtain ⟨a, ha, rfl⟩ := List.mem_map.1 hx
       have hl := hin a ha
@@ -623,7 +637,7 @@ def Op.selT (s : Scn) : Op → Id → Prop
 /-- (intersection id, incoming id) pairs an operation selects for removal -/
 def Op.selK (s : Scn) : Op → Id × Id → Prop
   | .netRemoveInter x, y => y.1 = x
-  | .scnRemoveInter x _, y => y.1 = x
+  | .scnRemoveInter x, y => y.1 = x
   | .cutOut keep _, y => ∀ i ∈ s.net.inters, i.id = y.1 → ∀ k ∈ i.incomings, k.id = y.2 →
       cutDrops (fun a => a ∈ s.net.lids ∧ keep.contains a = true) k
   | .fromList _ _, _ => True
@@ -632,7 +646,7 @@ def Op.selK (s : Scn) : Op → Id × Id → Prop
 /-- intersection ids an operation selects for removal (in a cut-out: all incoming elements are dropped) -/
 def Op.selI (s : Scn) : Op → Id → Prop
   | .netRemoveInter x, y => y = x
-  | .scnRemoveInter x _, y => y = x
+  | .scnRemoveInter x, y => y = x
   | .cutOut keep _, y => ∀ i ∈ s.net.inters, i.id = y → ∀ k ∈ i.incomings,
       cutDrops (fun a => a ∈ s.net.lids ∧ keep.contains a = true) k
   | .fromList _ _, _ => True
@@ -697,7 +711,7 @@ theorem C10_present_step_lanelet (s : Scn) (op : Op) (a : Id) (ha : a ∈ s.net.
   | scnRemoveLanelets args r => exact (C10_present_scnRemoveLanelets s args r).1 a ha hs
   | scnRemoveSigns xs => show a ∈ (s.removeSigns xs).1.net.lids; rw [(C10_present_scnRemoveSigns s xs).1]; exact ha
   | scnRemoveLights xs => show a ∈ (s.removeLights xs).1.net.lids; rw [(C10_present_scnRemoveLights s xs).1]; exact ha
-  | scnRemoveInter x incs => show a ∈ (s.removeInter x incs).1.net.lids; rw [C10_present_scnRemoveInter]; exact ha
+  | scnRemoveInter x => show a ∈ (s.removeInter x).1.net.lids; rw [C10_present_scnRemoveInter]; exact ha
   | cutOut keep c =>
     rw [step_cutOut_eq]
     cases hr : s.net.cutOut (fun a => keep.contains a) c with
@@ -728,7 +742,7 @@ theorem C10_present_step_sign (s : Scn) (op : Op) (e : Elem) (he : e ∈ s.net.s
     · exact (C10_present_scnRemoveLanelets s args true).2.1 e he (fun hm => hs ⟨rfl, hm⟩)
   | scnRemoveSigns xs => exact (C10_present_scnRemoveSigns s xs).2.1 e he hs
   | scnRemoveLights xs => show e ∈ (s.removeLights xs).1.net.signs; rw [(C10_present_scnRemoveLights s xs).2.1]; exact he
-  | scnRemoveInter x incs => show e ∈ (s.removeInter x incs).1.net.signs; rw [C10_present_scnRemoveInter]; exact he
+  | scnRemoveInter x => show e ∈ (s.removeInter x).1.net.signs; rw [C10_present_scnRemoveInter]; exact he
   | cutOut keep c =>
     rw [step_cutOut_eq]
     cases hr : s.net.cutOut (fun a => keep.contains a) c with
@@ -755,7 +769,7 @@ theorem C10_present_step_light (s : Scn) (op : Op) (e : Elem) (he : e ∈ s.net.
     · exact (C10_present_scnRemoveLanelets s args true).2.2.1 e he (fun hm => hs ⟨rfl, hm⟩)
   | scnRemoveSigns xs => show e ∈ (s.removeSigns xs).1.net.lights; rw [(C10_present_scnRemoveSigns s xs).2.2.1]; exact he
   | scnRemoveLights xs => exact (C10_present_scnRemoveLights s xs).2.2.1 e he hs
-  | scnRemoveInter x incs => show e ∈ (s.removeInter x incs).1.net.lights; rw [C10_present_scnRemoveInter]; exact he
+  | scnRemoveInter x => show e ∈ (s.removeInter x).1.net.lights; rw [C10_present_scnRemoveInter]; exact he
   | cutOut keep c =>
     rw [step_cutOut_eq]
     cases hr : s.net.cutOut (fun a => keep.contains a) c with
@@ -781,8 +795,8 @@ theorem C10_present_step_incoming (s : Scn) (op : Op) (y : Id × Id) (hy : s.net
   | scnRemoveLanelets args r => exact viaShapes _ (C10_present_scnRemoveLanelets s args r).2.2.2
   | scnRemoveSigns xs => exact viaShapes _ (shapes_of_inters_eq (C10_present_scnRemoveSigns s xs).2.2.2)
   | scnRemoveLights xs => exact viaShapes _ (shapes_of_inters_eq (C10_present_scnRemoveLights s xs).2.2.2)
-  | scnRemoveInter x incs =>
-    show (s.removeInter x incs).1.net.hasInc y.1 y.2
+  | scnRemoveInter x =>
+    show (s.removeInter x).1.net.hasInc y.1 y.2
     rw [C10_present_scnRemoveInter]
     obtain ⟨i, hi, hid, hk⟩ := hy
     exact ⟨i, List.mem_filter.2 ⟨hi, by simpa [Op.selK, hid] using hs⟩, hid, hk⟩
@@ -821,8 +835,8 @@ theorem C10_present_step_inter (s : Scn) (op : Op) (x : Id) (hx : x ∈ s.net.ii
   | scnRemoveLanelets args r => exact viaShapes _ (C10_present_scnRemoveLanelets s args r).2.2.2
   | scnRemoveSigns xs => exact viaShapes _ (shapes_of_inters_eq (C10_present_scnRemoveSigns s xs).2.2.2)
   | scnRemoveLights xs => exact viaShapes _ (shapes_of_inters_eq (C10_present_scnRemoveLights s xs).2.2.2)
-  | scnRemoveInter x' incs =>
-    show x ∈ (s.removeInter x' incs).1.net.iids
+  | scnRemoveInter x' =>
+    show x ∈ (s.removeInter x').1.net.iids
     rw [C10_present_scnRemoveInter]
     obtain ⟨i, hi, hid⟩ := List.mem_map.1 hx
     exact List.mem_map.2 ⟨i, List.mem_filter.2 ⟨hi, by simpa [Op.selI, hid] using hs⟩, hid⟩
@@ -932,7 +946,7 @@ example : Inv net := by unfold Inv; decide
 example : net.lids.Nodup := by decide
 -- the hypotheses of the step / run theorems are met by a history that uses every kind of operation
 example : ∀ op ∈ [Op.scnRemoveLanelets [⟨2, [10, 11], [20]⟩] true, .netRemoveSign 10, .cutOut [1, 3, 4] true,
-    .netRemoveLight 20, .scnRemoveInter 30 [31, 32], .fromList [1, 4] true], op.cleans := by decide
+    .netRemoveLight 20, .scnRemoveInter 30, .fromList [1, 4] true], op.cleans := by decide
 -- removing lanelet 2 with its referenced elements: sign 11 (only on 2) goes, sign 10 (shared with 1) and light 20
 -- (shared with 3) stay, every reference to 2 is gone
 example : ((scn.step (.scnRemoveLanelets [⟨2, [10, 11], [20]⟩] true)).1.net.sids,
